@@ -1,6 +1,6 @@
 --------------------------- MODULE MC_SshAudit ---------------------------
 (* Model-checking instances of SshAudit: the server families explored by Init. *)
-EXTENDS SshAudit, Json
+EXTENDS SshAudit, Json, IOUtils
 
 Base == [hk |-> <<>>, kexOK |-> FALSE, kexGex |-> FALSE, gex |-> {}, dh |-> FALSE,
          moduli |-> {}, style |-> "strict", openssh |-> FALSE, skipRate |-> TRUE]
@@ -23,9 +23,19 @@ GexFaultServers ==
     {[Base EXCEPT !.gex = g, !.moduli = m, !.style = st, !.openssh = o] :
         g \in {{GexSha256}, {GexSha1, GexSha256}}, m \in SmallPolicies, st \in Styles, o \in BOOLEAN}
 RateServers == {[Base EXCEPT !.dh = d, !.skipRate = sk] : d \in BOOLEAN, sk \in BOOLEAN}
+NoServers == {}
 Combined == {[hk |-> <<"rsa-sha2-512", "ssh-ed25519">>, kexOK |-> TRUE, kexGex |-> FALSE, gex |-> {GexSha256}, dh |-> TRUE,
               moduli |-> {2048, 4096}, style |-> "openssh", openssh |-> TRUE, skipRate |-> FALSE]}
 FaultFamily == HkFamilyServers \cup GexFaultServers \cup RateServers \cup Combined
+
+\* -g (granular group-exchange test; beyond the listed properties, bound in C12): the distinct group sizes a server hands out
+\* for a list of (min, pref, max) requests, in the order they are first seen
+RECURSIVE Dedup(_, _)
+Dedup(q, seen) == IF q = <<>> THEN <<>> ELSE IF Head(q) \in seen THEN Dedup(Tail(q), seen) ELSE <<Head(q)>> \o Dedup(Tail(q), seen \cup {Head(q)})
+Granular(sv, reqs) == Dedup(SelectSeq([i \in 1..Len(reqs) |-> Group(sv, reqs[i][1], reqs[i][2], reqs[i][3])], LAMBDA bits : bits > 0), {})
+GranularInput == IF "VERIF_GRANULAR" \in DOMAIN IOEnv THEN JsonDeserialize(IOEnv.VERIF_GRANULAR) ELSE <<>>
+ASSUME GranularInput = <<>> \/ PrintT(ToJson([k \in 1..Len(GranularInput) |->
+            Granular([moduli |-> {GranularInput[k].moduli[i] : i \in 1..Len(GranularInput[k].moduli)}, style |-> GranularInput[k].style], GranularInput[k].reqs)]))
 
 \* the C12 oracle: terminal state of every fault-free behaviour
 EmitGex == (pc = "done") => PrintT(ToJson([moduli |-> srv.moduli, style |-> srv.style, openssh |-> srv.openssh, gex |-> srv.gex,
